@@ -1025,7 +1025,7 @@ CONTROLS = (("SSEMC_ctl_swallow.cfg", "ReorgCovered", "de-duplication by epoch (
             ("SSEMC_ctl_live.cfg", "temporal", "liveness control: a client that got a 503 is never connected again (as coded)"))
 QUICK_MC = ["SSEMC_frame.cfg", "SSEMC_reorg.cfg", "SSEMC_mixed.cfg", "SSEMC_life.cfg", "SSEMC_gossip.cfg", "SSEMC_gossip_either.cfg",
             "SSEMC_split.cfg", "SSEMC_contract.cfg", "SSEMC_contract_reorg.cfg", "SSEMC_live.cfg", "SSEMC_live_ascoded.cfg"]
-THOROUGH_MC = ["SSEMC_frame_thorough.cfg", "SSEMC_reorg_thorough.cfg", "SSEMC_mixed_thorough.cfg", "SSEMC_life_thorough.cfg",
+THOROUGH_MC = ["SSEMC_frame_thorough.cfg", "SSEMC_reorg_thorough.cfg", "SSEMC_mixed_thorough.cfg", "SSEMC_life_thorough.cfg", "SSEMC_life2_thorough.cfg",
                "SSEMC_gossip_thorough.cfg", "SSEMC_gossip_either.cfg", "SSEMC_split.cfg", "SSEMC_contract_thorough.cfg", "SSEMC_contract_reorg.cfg",
                "SSEMC_live_thorough.cfg", "SSEMC_live_ascoded.cfg"]
 GENS = ["SSEGen.cfg", "SSEGen_life.cfg", "SSEGen_reorg.cfg"]
